@@ -67,12 +67,21 @@ def _one(args):
     ov = _apply(index, w)
     if ov is None:
         return (kind, w["name"], "unapplicable", [])
+    import signal
+
+    def _timeout(signum, frame):
+        raise TimeoutError("rule evaluation exceeded 120 s on this variant")
+
+    signal.signal(signal.SIGALRM, _timeout)
+    signal.alarm(120)
     try:
         ctx = run_rules(pid, ov, "quick")
+        signal.alarm(0)
     except AnalysisError as e:
         # failing closed on a broken anchor also counts as noticing the fault
         return (kind, w["name"], "analysis-error", [str(e)[:200]])
     except Exception as e:  # noqa: BLE001
+        signal.alarm(0)
         return (kind, w["name"], "crash", [f"{type(e).__name__}: {e}"[:300]])
     keys = {f.key for f in ctx.findings}
     new = sorted(keys - base_keys)
